@@ -95,7 +95,16 @@ pub fn generate(g: &mut G, _index: u64) -> Scenario {
             ops.push(Op::Stop { h: PRIMARY })
         }
     };
-    match g.below(10) {
+    match g.below(11) {
+        10 => {
+            // a join future that was polled once and is kept, unpolled, must not block later joins
+            ops.push(Op::JoinStart { h: PRIMARY });
+            ops.push(Op::JoinPoll);
+            stop(ops);
+            ops.push(Op::Await { h: PRIMARY, on_clone: true });
+            ops.push(Op::Join { h: PRIMARY });
+            ops.push(Op::JoinFinish);
+        }
         9 => {
             // a join future that is created but never polled takes nothing away
             ops.push(Op::JoinStart { h: PRIMARY });
@@ -165,6 +174,8 @@ pub fn generate(g: &mut G, _index: u64) -> Scenario {
 fn is_join(o: &Op) -> bool {
     matches!(o, Op::Join { .. } | Op::JoinFinish | Op::DropThenJoin { .. } | Op::Consume { .. } | Op::ConsumeSync { .. })
 }
+// (JoinPoll that finds its future ready reports Joined(..) like a join; one that stays pending is
+// not an ended join)
 
 pub fn check(v: &View) -> Vec<Violation> {
     let mut out = vec![];
@@ -179,7 +190,7 @@ pub fn check(v: &View) -> Vec<Violation> {
         let joins: Vec<&OpRec> = v
             .ops
             .iter()
-            .filter(|o| is_join(o.inner) && !o.skipped() && (o.target == Some(aidx) || (matches!(o.inner, Op::JoinFinish) && v.sc.actors.len() == 1)))
+            .filter(|o| (is_join(o.inner) || (matches!(o.inner, Op::JoinPoll) && matches!(o.res, Some(Res::Joined(_))))) && !o.skipped() && (o.target == Some(aidx) || (matches!(o.inner, Op::JoinFinish | Op::JoinPoll) && v.sc.actors.len() == 1)))
             .collect();
         let mut somes = 0;
         for o in &joins {
